@@ -177,8 +177,21 @@ def gen_order(rng, n, tier):
         executed = le
         minted_guess = le
         pending_reports = []
+        term, voted = 1, 0
         for _ in range(r.randint(4, 25)):
             k = r.random()
+            if r.random() < 0.12:
+                # a Ready that carries neither entries nor a snapshot: the replica hears of a higher term and / or grants its vote
+                # (to candidate 2 or 3, at most once per term), the commit index may move; quite often the process dies right after
+                if voted and r.random() < 0.7:
+                    term += r.choice([1, 1, 2])
+                voted = r.choice([2, 3, 2, 0]) if not voted or True else voted
+                ops.append(f"hs {term} {voted} {r.choice([idx, max(0, idx - 1)])}")
+                tags.add("hard-state-only-ready")
+                if r.random() < 0.5:
+                    ops.append("restart")
+                    tags.add("restart:after-vote")
+                continue
             if k < 0.4:
                 ents = []
                 for _ in range(r.choice([1, 1, 2, 3, 5])):
@@ -244,8 +257,17 @@ def mon_order(h, obs):
     start = None
     snap_ahead = False
     queued_at_snapshot = 0
+    tv = None          # (term, vote) last handed to the storage by a hard-state-only Ready
     for op, o in zip(h.ops, obs):
         ws = op.split()
+        if ws[0] == "hs" and o == "ok":
+            tv = (int(ws[1]), int(ws[2]))
+        elif ws[0] == "restart" and tv is not None:
+            # a replica votes at most once per term, also after a crash: what it stored is what it starts from
+            m = _re.search(r"hs=(\d+)/(\d+)/(\d+)", o or "")
+            if m and (int(m.group(1)), int(m.group(2))) != tv:
+                hits.append(Hit("C20/restart-forgets-term-or-vote", f"the replica stored term {tv[0]} / vote {tv[1]} before it went down and starts from term {m.group(1)} / vote {m.group(2)}: it can vote a second time in that term (two leaders, different batches at one height)", op))
+                tv = None
         if ws[0] == "raft":
             m = _re.search(r"lastExec=(\d+)", op)
             ledger = start = int(m.group(1))
